@@ -87,7 +87,41 @@ func ruleF1(c *Ctx) *RuleResult {
 			}
 		})
 		if n < min {
-			r.fail(fmt.Sprintf("%s|%s|missing", FuncName(fn), label), c.Pos(fn.Pos()), FuncName(fn), what, fmt.Sprintf("expected at least %d such site(s), found %d", min, n))
+			// the construction may live in a helper of the stream that receives the parameter unchanged
+			// (`openNextSegment(nextDTS, nextNTP, force)`): count the sinks there, against the helper's own parameter
+			viaHelper := 0
+			helperName := ""
+			allInstrs(fn, func(in ssa.Instruction) {
+				call, ok := in.(*ssa.Call)
+				if !ok {
+					return
+				}
+				g := call.Call.StaticCallee()
+				if g == nil || g == fn || !InRootPkg(g) || g.Blocks == nil || g.Signature.Recv() == nil || !typeIs(g.Signature.Recv().Type(), modPath, "muxerStream") {
+					return
+				}
+				for i, a := range call.Call.Args {
+					if a != ssa.Value(p) || i >= len(g.Params) {
+						continue
+					}
+					gp := g.Params[i]
+					allInstrs(g, func(x ssa.Instruction) {
+						if v, ok := isSink(x); ok {
+							if v == ssa.Value(gp) {
+								viaHelper++
+								helperName = FuncName(g)
+							} else {
+								viaHelper = -1000
+							}
+						}
+					})
+				}
+			})
+			if n+viaHelper >= min {
+				r.ok(fmt.Sprintf("%s|%s|via-helper", FuncName(fn), label), c.Pos(fn.Pos()), FuncName(fn), what, "the parameter is handed unchanged to "+helperName+", where it reaches the sink")
+			} else {
+				r.fail(fmt.Sprintf("%s|%s|missing", FuncName(fn), label), c.Pos(fn.Pos()), FuncName(fn), what, fmt.Sprintf("expected at least %d such site(s), found %d", min, n))
+			}
 		}
 	}
 	finalizeArg := func(recvType string) func(in ssa.Instruction) (ssa.Value, bool) {
@@ -512,6 +546,22 @@ func hasQueryForm(v ssa.Value) (bool, string) {
 	case *ssa.UnOp:
 		if al, ok := x.X.(*ssa.Alloc); ok {
 			return hasQueryForm(al)
+		}
+	case *ssa.Call:
+		// a helper that appends the query: judged on its own returns (the guard `q != ""` is inside it)
+		if g := x.Call.StaticCallee(); g != nil {
+			if _, qi, ok := queryAppender(g); ok && isStringType(x.Call.Args[qi].Type()) {
+				for _, b := range g.Blocks {
+					if ret, isRet := b.Instrs[len(b.Instrs)-1].(*ssa.Return); isRet && b != g.Recover {
+						v := retVal(ret, 0)
+						if phi, isPhi := v.(*ssa.Phi); isPhi {
+							alts = append(alts, phi.Edges...)
+						} else {
+							alts = append(alts, v)
+						}
+					}
+				}
+			}
 		}
 	}
 	for _, a := range alts {
